@@ -136,6 +136,8 @@ def main(argv):
         c.broken.append("build of the repo working tree failed: " + blog[-800:])
         return c.finish(rule="build failed")
     c.proofs()
+    if not quick:
+        coqchk(c)
     drv, dlog = build_driver("C19")
     if drv is None:
         c.broken.append("extraction/driver build failed: " + dlog[-600:])
